@@ -127,7 +127,8 @@ CLAIMED["C10"]["tech"] += " + model regenerated from the source by a translator 
 CLAIMED["C10"]["note"] += " Translation tie: translator tools/regtrans and the LMini semantics (incl. the reduction of a disciplined critical section to one step) are trusted when its status is 'proved'."
 CLAIMED["C16"]["text"] += " Part internal_targets also lets several inbound streams hit one fresh stream reader at the same moment (what Remote.Start builds)."
 CLAIMED["C19"]["text"] += (" A join that spreads (the agents learn of the joiner one after the other, activations in between): model JoinSpread.v, theorems "
-  "C19_join_that_spreads_everyone_learns / C19_join_that_spreads_views for every order and grouping, replayed by part stagger.")
+  "C19_join_that_spreads_everyone_learns / C19_join_that_spreads_views / C19_join_that_spreads_no_second_activation for every order and grouping, "
+  "joiner activations included (repair D26), replayed by part stagger.")
 CLAIMED["C19"]["text"] += " The in-memory Remoter can encode a message after Send has returned, as the real stream writer does (class large_topology_late_joiner and the *_lazy_links classes)."
 CLAIMED["C12"]["text"] += (" Last sentence of C12: C12_lifecycle_events_published (the published lifecycle events of every run of the process model are exactly those "
   "the delivery stream calls for; dead letters only after Stopped; per payload delivered + dead-lettered = sent) with C12_oracle_sound, judged on the implementation's "
